@@ -256,5 +256,4 @@ CHECKS = {
 NOT_APPLICABLE = {}
 
 # checks that exist but are temporarily not claimed (being reconciled with repairs of other properties)
-SUSPENDED = {'C04': 'built and merged; being reconciled with the final set of repairs in /repo (C10/C01/C02 changed code its model pins); not claimed until green again',
-             }
+SUSPENDED = {}
